@@ -170,7 +170,9 @@ func c09Expect(desc *zoekt.Repository, d Document) c09Exp {
 			m.Sym = string(d.Content[s.Start:s.End])
 			ps = append(ps, pair{s, m})
 		}
-		// inputs are given sorted; keep the order
+		// Add stores the sections ordered by start offset, each with its own metadata (inputs with
+		// equal start offsets are only generated in order)
+		sort.SliceStable(ps, func(i, j int) bool { return ps[i].s.Start < ps[j].s.Start })
 		for _, p := range ps {
 			e.secs = append(e.secs, p.s)
 			e.meta = append(e.meta, p.m)
@@ -1134,6 +1136,10 @@ func c09Families(thorough bool) []*c09Case {
 				for c := b; c < len(rb); c++ {
 					for e := c; e < len(rb); e++ {
 						addDoc([]DocumentSection{{rb[a], rb[b]}, {rb[c], rb[e]}})
+						if a != c {
+							// the same sections handed over in the other order (Add sorts sections AND their metadata)
+							addDoc([]DocumentSection{{rb[c], rb[e]}, {rb[a], rb[b]}})
+						}
 					}
 				}
 			}
